@@ -5090,8 +5090,10 @@ func readOfficialHeader(buf []byte) (size uint32, containerTyper func(index uint
 		return size, containerTyper, header, pos, haveRuns, err
 	}
 	cf := func(index uint, card int) (newType byte) {
+		// The official format stores up to and including ArrayMaxSize
+		// values as an array.
 		newType = containerBitmap
-		if card < ArrayMaxSize {
+		if card <= ArrayMaxSize {
 			newType = containerArray
 		}
 		return newType
